@@ -567,9 +567,10 @@ impl<'h> Exec<'h> {
                     let shape = self.shape();
                     self.probes.hit("stalled_nothing_selectable");
                     if self.oracles.c20 {
+                        let class = self.stall_class();
                         self.violate(
                             "C20",
-                            "stalled-nothing-selectable",
+                            class,
                             format!(
                                 "ingest would stall, compaction selects nothing, ongoing={ongoing}, shape={shape}"
                             ),
@@ -587,6 +588,60 @@ impl<'h> Exec<'h> {
         self.steps += 1;
         self.probes.hit("flushes");
         res.map_err(|e| format!("{e}"))
+    }
+
+    /// Class of a "level 0 is full and nothing is selectable" state, naming the limits in force.
+    fn stall_class(&self) -> String {
+        let mcf = self.h.opt("--max-compaction-files").unwrap_or("64");
+        let mof = self.h.opt("--max-open-files").unwrap_or("default");
+        let mcb = self.h.opt("--max-compaction-bytes").unwrap_or("default");
+        let l0 = self
+            .store
+            .as_ref()
+            .map(|s| s.tree().verif_levels()[0].len())
+            .unwrap_or(0);
+        let mcf_n: usize = mcf.parse().unwrap_or(64);
+        let stall: usize = self
+            .h
+            .opt("--l0-write-stall-threshold-files")
+            .and_then(|s| s.parse().ok())
+            .unwrap_or(12);
+        let mandatory: usize = self
+            .h
+            .opt("--l0-mandatory-compaction-threshold-files")
+            .and_then(|s| s.parse().ok())
+            .unwrap_or(4);
+        let byte_thresholds = self.h.opt("--l0-write-stall-threshold-bytes").is_some()
+            || self.h.opt("--l0-mandatory-compaction-threshold-bytes").is_some();
+        // files the level-0 compaction needs: all of level 0 plus what it overlaps in level 1
+        let needed = self
+            .store
+            .as_ref()
+            .map(|s| {
+                let levels = s.tree().verif_levels();
+                let lo = levels[0].iter().map(|f| f.1.clone()).min();
+                let hi = levels[0].iter().map(|f| f.2.clone()).max();
+                match (lo, hi) {
+                    (Some(lo), Some(hi)) => {
+                        levels[0].len() + levels[1].iter().filter(|f| f.1 <= hi && lo <= f.2).count()
+                    }
+                    _ => 0,
+                }
+            })
+            .unwrap_or(0);
+        let _ = l0;
+        let relation = if mcf_n < 2 {
+            "no-merging-compaction-permitted"
+        } else if needed > mcf_n {
+            "relieving-compaction-needs-more-files-than-max-compaction-files"
+        } else if stall < mandatory {
+            "stall-threshold-below-mandatory-threshold"
+        } else if byte_thresholds {
+            "byte-thresholds-in-force"
+        } else {
+            "thresholds-ordered"
+        };
+        format!("stalled-nothing-selectable:{relation}:max-open-files={mof}:max-compaction-bytes={mcb}")
     }
 
     /// A compact per-level signature of the tree shape.
@@ -658,9 +713,10 @@ impl<'h> Exec<'h> {
                 let shape = self.shape();
                 self.probes.hit("stalled_nothing_selectable");
                 if self.oracles.c20 {
+                    let class = self.stall_class();
                     self.violate(
                         "C20",
-                        "stalled-nothing-selectable",
+                        class,
                         format!("ingest would stall, compaction selects nothing, shape={shape}"),
                     );
                 }
@@ -1477,6 +1533,12 @@ impl<'h> Exec<'h> {
                         ex.log.push(format!("op {i} {} err {}", op.kind(), err_class(&e)));
                         if e == "WOULD-DEADLOCK" {
                             // C20 state predicate fired (violation already recorded if enabled).
+                            break;
+                        }
+                        if e.contains("too-many-open-files") {
+                            // The configured max_open_files was reached: a documented, explicit
+                            // resource-limit error, not a defect of any property checked here.
+                            ex.probes.hit("run_ended_at_max_open_files_limit");
                             break;
                         }
                         if !faulty {
